@@ -539,7 +539,7 @@ def man_chain_case(kind, direction, orientation="QSW"):
                      "propagate(t2)" if direction == "fwd" else "epoch) of the returned orbit restores the initial state"))
 
 
-def man_pair_case(kind_a, kind_b, overlap=False):
+def man_pair_case(kind_a, kind_b, overlap=False, orientation="QSW"):
     """two maneuvers in chronological order (impulse = 'i', continuous burn given by its acceleration = 'c'), target date anywhere: the result is
     the free motion plus, by linearity of Hill's equations, the contribution of each maneuver taken alone (an impulse counts
     once its date is passed, a burn for the part of its window that lies before the target date).  overlap: the second
@@ -582,13 +582,17 @@ def man_pair_case(kind_a, kind_b, overlap=False):
         return p + [v["tb"] >= end_a]
 
     def run(env, v):
-        prop = mk_prop(env, v["n"])
+        prop = mk_prop(env, v["n"], orientation)
         try:
             mk_orb(env, prop, _x0(v), mans=mans(env, v))
             return {"x": list(prop.propagate(mk_date(env, v["t"])))}
         finally:
             if not env.symbolic:
                 _restore()
+    P = PERM if orientation == "TNW" else np.identity(3, dtype=int)
+    toq = lambda env, x: list(P.T @ env.vec(*x[:3])) + list(P.T @ env.vec(*x[3:]))
+    fromq = lambda env, x: list(P @ env.vec(*x[:3])) + list(P @ env.vec(*x[3:]))
+    dvq = lambda env, d: list(P.T @ env.vec(*d))
 
     def contribution(env, n, t, kind, start, dur, d):
         zero = [0, 0, 0, 0, 0, 0]
@@ -604,25 +608,27 @@ def man_pair_case(kind_a, kind_b, overlap=False):
     def ref_cc(env, v):
         # two burns one after the other: piecewise closed form, segment by segment (the superposition form of this case is
         # beyond the solver's time budget: five angles)
-        n, t, x, at = v["n"], v["t"], _x0(v), 0
-        for start, dur, acc in ((v["ta"], v["da"], [v["ax"], v["ay"], v["az"]]), (v["tb"], v["db"], [v["bx"], v["by"], v["bz"]])):
+        n, t, x, at = v["n"], v["t"], toq(env, _x0(v)), 0
+        for start, dur, acc in ((v["ta"], v["da"], dvq(env, [v["ax"], v["ay"], v["az"]])),
+                                (v["tb"], v["db"], dvq(env, [v["bx"], v["by"], v["bz"]]))):
             if t <= start:
                 break
             x, at = cw_ref(env, n, start - at, x), start
             end = start + dur if t >= start + dur else t
             x, at = cw_ref(env, n, end - at, x, acc), end
-        return {"x": cw_ref(env, n, t - at, x)}
+        return {"x": fromq(env, cw_ref(env, n, t - at, x))}
 
     def ref(env, v, out):
         if kind_a == "c" and kind_b == "c":
             return ref_cc(env, v)
         n, t = v["n"], v["t"]
-        x = cw_ref(env, n, t, _x0(v))
-        ca = contribution(env, n, t, kind_a, v["ta"], v["da"], [v["ax"], v["ay"], v["az"]])
-        cb = contribution(env, n, t, kind_b, v["tb"], v["db"], [v["bx"], v["by"], v["bz"]])
-        return {"x": [x[k] + ca[k] + cb[k] for k in range(6)]}
+        x = cw_ref(env, n, t, toq(env, _x0(v)))
+        ca = contribution(env, n, t, kind_a, v["ta"], v["da"], dvq(env, [v["ax"], v["ay"], v["az"]]))
+        cb = contribution(env, n, t, kind_b, v["tb"], v["db"], dvq(env, [v["bx"], v["by"], v["bz"]]))
+        return {"x": fromq(env, [x[k] + ca[k] + cb[k] for k in range(6)])}
     sig = "CW: an impulse dated inside a continuous burn is dropped while the target date is inside the burn" if overlap else None
-    return Case(f"man_pair/{kind_a}{kind_b}" + ("/overlap" if overlap else ""), inputs, run, ref, pre=pre, timeout=120, tol=1e-5, abs_tol=1e-5,
+    return Case(f"man_pair/{kind_a}{kind_b}" + ("/overlap" if overlap else "") + ("/TNW" if orientation == "TNW" else ""), inputs, run, ref,
+                pre=pre, timeout=120, tol=1e-5, abs_tol=1e-5,
                 signature=sig, maxpaths=400,
                 desc=f"propagate() through two maneuvers ({kind_a} then {kind_b}; i = impulse, c = continuous burn"
                      + (", the impulse dated inside the burn" if overlap else ", the second not before the end of the first")
@@ -638,6 +644,8 @@ def man_cases(tier):
            man_pair_case("c", "i", overlap=True)]
     if tier != "quick":
         cs += [man_chain_case("impulsive", "fwd", "TNW"), man_chain_case("cont_dv", "fwd", "TNW")]
+        cs += [man_pair_case("i", "c", orientation="TNW"), man_pair_case("c", "i", orientation="TNW"),
+               man_pair_case("c", "i", overlap=True, orientation="TNW")]
     return cs
 
 
